@@ -54,9 +54,10 @@ Open ==
              THEN /\ dead' = TRUE /\ out' = <<<<"C", "EYC">>>> /\ UNCHANGED <<running, queue, started>>
              ELSE /\ queue' = Append(queue, next) /\ out' = <<>> /\ UNCHANGED <<running, started, dead>>
 
-\* RST_STREAM from the client on a stream it opened earlier (known or already gone)
+\* RST_STREAM from the client on a stream it opened earlier: a known one, or - as the representative of streams already gone,
+\* for which the frame changes nothing - the one opened last
 Rst(s) ==
-  /\ ~dead /\ s < next
+  /\ ~dead /\ s < next /\ (s \in open \/ s = next - 1)
   /\ open' = open \ {s} /\ out' = <<>>
   /\ UNCHANGED <<next, running, queue, started, dead>>
 
@@ -92,4 +93,7 @@ LiveBacklogMeansFull == (\E i \in 1..Len(queue) : queue[i] \in open) => Cardinal
 CalmOnlyWhenFlooded == [][dead' /\ ~dead => Len(queue) > Mult * AdvMax /\ Cardinality(running) = AdvMax]_vars
 \* no accepted request is forgotten: a live request in the backlog is started once handlers end (or the client gives it up, or the connection is ended)
 NoStarvation == \A s \in 1..MaxStreams : ((s \in open /\ s \in SeqSet(queue)) ~> (s \in running \/ s \notin open \/ dead))
+\* ---- for the configurations ----
+NotDead == ~dead                       \* must be violated: the flood is inside the bound
+FewStarts == Len(started) <= 3         \* CONSTRAINT of the replay graph with two slots: behaviours with little handler turnover
 =============================================================================
